@@ -5,6 +5,7 @@ CONSTANTS
   Pings <- TrPings
   CtxCalls <- TrCtx
   FailCalls <- TrFail
+  NoMethodCalls <- TrNoMethod
   CliPipe = FALSE
   CliDirect = FALSE
   SrvPipe = FALSE
